@@ -78,6 +78,12 @@ CLAIMED['C10'].update(category='other', technique=_SEM,
          'quantifier/function-call constructor contracts. Not proved (bounded): no bound variable escapes, the predicate-level '
          'wrapper and public dispatch, absence of TypeError/HplSanityError from the quantifier constructor (C14).',
     note='A-SEM; obligations lost with respect to /verif/baseline/C10.json are reported as violations without a failing input')
+CLAIMED['C13'].update(category='other', technique=_SEM,
+    text='Proved (unbounded, the three predicate classes): negate() denotes logical negation and join() logical conjunction on '
+         'every valuation; the vacuous truth is the identity and the contradiction the annihilator of join. Assumed: the '
+         'HplPredicateExpression constructor contract (may raise TypeError), semantic axioms A-SEM. Bounded only: this<->variable '
+         'replacement, the inverse law, event alias normalisation (reference evaluator).',
+    note='A-SEM; baseline /verif/baseline/C13.json')
 CLAIMED['C19'].update(category='other', technique='ground evaluation + pyvc contract of the value serializer; bounded in-process runs of hpl.cli.main (third-party: attrs.asdict, json, argparse)',
     text='Proved/ground: _ast_object_serializer maps enum members to values, non-finite floats to None, leaves finite numbers and other values unchanged. Bounded (A-3P): exit status 0 iff the argument parses, one strictly valid JSON document mirroring the AST, no JSON on failure.')
 NOT_YET = {}
